@@ -47,6 +47,12 @@ impl<K: Clone, V: Clone> Clone for LruCache<K, V> {
     }
 }
 
+/// `*slot = v` for a slot known to be empty: forget the old value instead of running drop glue
+/// that CBMC cannot see to be a no-op.
+fn put_into_empty<T>(slot: &mut Option<T>, v: Option<T>) {
+    core::mem::forget(core::mem::replace(slot, v));
+}
+
 fn hit<K: PartialEq, V>(slot: &Option<Box<(K, V)>>, k: &K) -> bool {
     match slot {
         Some(e) => e.0 == *k,
@@ -86,14 +92,17 @@ impl<K: PartialEq, V> LruCache<K, V> {
         } else if hit(&self.s1, k) {
             // (not mem::swap: its chunked byte loop needs an unwinding bound that grows with the entry size)
             let hot = self.s1.take();
-            self.s1 = self.s0.take();
-            self.s0 = hot;
+            let s0 = self.s0.take();
+            put_into_empty(&mut self.s1, s0);
+            put_into_empty(&mut self.s0, hot);
             true
         } else if hit(&self.s2, k) {
             let hot = self.s2.take();
-            self.s2 = self.s1.take();
-            self.s1 = self.s0.take();
-            self.s0 = hot;
+            let s1 = self.s1.take();
+            put_into_empty(&mut self.s2, s1);
+            let s0 = self.s0.take();
+            put_into_empty(&mut self.s1, s0);
+            put_into_empty(&mut self.s0, hot);
             true
         } else {
             false
@@ -157,9 +166,11 @@ impl<K: PartialEq, V> LruCache<K, V> {
         }
 
         // push front; `s2` is empty at this point
-        self.s2 = self.s1.take();
-        self.s1 = self.s0.take();
-        self.s0 = Some(Box::new((k, v)));
+        let s1 = self.s1.take();
+        put_into_empty(&mut self.s2, s1);
+        let s0 = self.s0.take();
+        put_into_empty(&mut self.s1, s0);
+        put_into_empty(&mut self.s0, Some(Box::new((k, v))));
 
         None
     }
